@@ -149,6 +149,18 @@ pub fn violation(class: &str, sig: &str, detail: String) {
     });
 }
 
+/// Drops `x` - unless an oracle of this execution has already reported a
+/// violation: then the handles of the broken object are leaked instead, so
+/// that a logical error that was caught (a second live loan, an early free)
+/// cannot turn into heap corruption and kill the process before it reports.
+pub fn drop_or_leak<T>(x: T) {
+    if has_violation() {
+        std::mem::forget(x);
+    } else {
+        drop(x);
+    }
+}
+
 pub fn has_violation() -> bool {
     with_ctx(|c| c.found.is_some()).unwrap_or(false)
 }
@@ -464,7 +476,7 @@ pub struct Failure {
 #[derive(Default)]
 pub struct UnitOutcome {
     pub execs: Vec<ExecRecord>,
-    pub counters: BTreeMap<&'static str, u64>,
+    pub counters: BTreeMap<String, u64>,
     pub points: u64,
     pub failures: Vec<Failure>,
     /// Event log of the first execution (evidence sample).
@@ -632,7 +644,7 @@ fn run_driver(driver: Driver, keep_logs: bool, workload: Workload) -> Result<Uni
         Recording::<RandomScheduler>::finish_current(&mut r);
     }
     out.execs = std::mem::take(&mut c.execs);
-    out.counters = std::mem::take(&mut c.counters);
+    out.counters = std::mem::take(&mut c.counters).into_iter().map(|(k, v)| (k.to_string(), v)).collect();
     out.points = c.points;
     out.sample = std::mem::take(&mut c.sample);
     for (idx, found, log) in std::mem::take(&mut c.found) {
